@@ -570,6 +570,13 @@ func c04(c *core.Ctx) {
 		}
 		c.EndRule()
 	}
+
+	// ---------------------------------------------------------------- R7, R8 (HTTP deadline hand-over)
+	// "the handler's context is cancelled as well" needs the deadline to reach the handler for EVERY value the
+	// client can send, the smallest included: the client never sends a value the server takes for "no timeout"
+	// (C09/R3: clamped to >= 1), and the server applies the deadline for every valid value (C09/R5).
+	c.Borrow("C09", map[string]string{"R3": "R7", "R5": "R8"}, c09)
+
 }
 
 // streamCtxValue: the value stored into the ctx field of the server stream
